@@ -262,3 +262,6 @@ func runWorker(t *testing.T) {
 		fmt.Fprintf(clog, "done\n")
 	}
 }
+
+func synctestWait()                 { synctest.Wait() }
+func sleepVirtual(d time.Duration) { time.Sleep(d); synctest.Wait() }
